@@ -247,9 +247,29 @@ class _Acc:
         self.drift_samples = []
         self.hung = self.panics = 0
 
+    def merge(self, o):
+        self.verdict["violations"] += o.verdict["violations"]
+        for k in ("n_lines", "wall", "raw"):
+            self.verdict[k] += o.verdict[k]
+        for k, x in o.verdict["known"].items():
+            if k in self.verdict["known"]:
+                self.verdict["known"][k]["count"] += x["count"]
+            else:
+                self.verdict["known"][k] = x
+        full = [t for t in self.light if t["steps"] and t["steps"][0] is not None]
+        for t in o.light:
+            if len(full) >= 3 and not t.get("error") and t["steps"] and t["steps"][0] is not None:
+                t = {"id": t["id"], "steps": [None] * len(t["steps"])}
+            self.light.append(t)
+        self.drift_steps += o.drift_steps
+        self.drift_n += o.drift_n
+        self.drift_samples += o.drift_samples[:3]
+        self.hung += o.hung
+        self.panics += o.panics
+
     def chunk(self, prop_id, gen, chains, tag, pf, index, chunk, sc):
         v = family.judge([SPEC, gen], "UtxoScanProps", PROPS[prop_id], prop_id, chunk, label=label)
-        tmp = os.path.join(sc, "exp-chunk.ndjson")
+        tmp = os.path.join(sc, "exp-chunk-%s.ndjson" % tag)
         with open(pf, "rb") as f, open(tmp, "wb") as o:
             for t in chunk:
                 f.seek(index[t["id"]])
@@ -425,44 +445,58 @@ def run(prop_id, tier, seed, replay=None):
             return family.finish(prop_id, tier, seed, t0, family._NoTLC(), None, [0], acc.light, acc.verdict,
                                  (acc.drift_steps, acc.drift_n, acc.drift_samples),
                                  {"replay_of": replay}, ASSUMPTIONS, label=label)
-        all_paths, per_cfg = [], []
-        n_edges = n_viol_edges = unreach_tot = 0
-        for cfg in config(tier, seed):
+        def do_cfg(cfg):
+            """model -> paths -> free-running validation -> replay -> judge for one configuration"""
+            a = _Acc()
+            crng = random.Random("%d/%s" % (seed, cfg["name"]))
             tlc, gen = run_tlc(cfg, sc)
             g = core.Graph.load(tlc)
             shutil.rmtree(tlc.workdir, ignore_errors=True)
-            paths, unreach = core.edge_cover(g, rng)
+            paths, unreach = core.edge_cover(g, crng)
             if tier == "thorough":
-                paths += core.random_walks(g, 500, 40, rng)
+                paths += core.random_walks(g, 500, 40, crng)
             pf = os.path.join(sc, "paths-%s.ndjson" % cfg["name"])
             core.write_paths(g, paths, pf)
             ne, nv = len(g.edges), sum(1 for e in g.edges if e[4])
             t_rep = time.time()
-            fr = free_run(prop_id, acc, binary, gen, cfg, g, seed, sc)
+            fr = free_run(prop_id, a, binary, gen, cfg, g, seed, sc)
             t_free = time.time() - t_rep
             del g
             t_rep = time.time()
-            h0, p0 = acc.hung, acc.panics
-            dn = replay_and_judge(prop_id, acc, binary, gen, cfg["chains"], cfg["name"], pf, sc)
+            dn = replay_and_judge(prop_id, a, binary, gen, cfg["chains"], cfg["name"], pf, sc)
             os.remove(pf)
             print("[%s] tlc %.0fs states %d edges %d paths %d replay+judge %.0fs free-running %d in %.0fs" % (
                 cfg["name"], tlc.wall, tlc.distinct, ne, len(paths), time.time() - t_rep,
                 fr["executions"], t_free), file=sys.stderr)
+            st = {"name": cfg["name"],
+                  "constants": {k: cfg[k] for k in ("MaxReq", "MaxFail", "AllowStop", "FalsePos", "best0s")},
+                  "chains": cfg["chains"], "catalogue": [list(c) for c in cfg["cat"]],
+                  "states": tlc.distinct, "edges": ne, "tlc_wall_s": round(tlc.wall, 1),
+                  "paths": len(paths), "drift_paths": dn, "hung_steps": a.hung,
+                  "panic_steps": a.panics, "model_violating_edges": nv, "free_running": fr}
+            return a, st, tlc, [len(p) for p in paths], unreach
+
+        cfgs = config(tier, seed)
+        if tier == "quick":
+            # small graphs: the configurations run side by side (each is mostly one TLC / driver process)
+            from concurrent.futures import ThreadPoolExecutor
+            with ThreadPoolExecutor(max_workers=3) as ex:
+                results = list(ex.map(do_cfg, cfgs))
+        else:
+            results = [do_cfg(c) for c in cfgs]       # one graph in memory at a time
+        all_paths, per_cfg = [], []
+        n_edges = n_viol_edges = unreach_tot = 0
+        for a, st, tlc, plens, unreach in results:
+            acc.merge(a)
             tot.generated += tlc.generated
             tot.distinct += tlc.distinct
             tot.depth = max(tot.depth, tlc.depth)
             tot.wall += tlc.wall
-            n_edges += ne
-            n_viol_edges += nv
+            n_edges += st["edges"]
+            n_viol_edges += st["model_violating_edges"]
             unreach_tot += unreach
-            all_paths += [len(p) for p in paths]
-            per_cfg.append({"name": cfg["name"],
-                            "constants": {k: cfg[k] for k in ("MaxReq", "MaxFail", "AllowStop", "FalsePos", "best0s")},
-                            "chains": cfg["chains"], "catalogue": [list(c) for c in cfg["cat"]],
-                            "states": tlc.distinct, "edges": ne, "tlc_wall_s": round(tlc.wall, 1),
-                            "paths": len(paths), "drift_paths": dn, "hung_steps": acc.hung - h0,
-                            "panic_steps": acc.panics - p0, "model_violating_edges": nv,
-                            "free_running": fr})
+            all_paths += plens
+            per_cfg.append(st)
         g = _G()
         g.edges = [(0, 0, 0, 0, i < n_viol_edges) for i in range(n_edges)]   # counts only, for family.finish
         return family.finish(prop_id, tier, seed, t0, tot, g, all_paths, acc.light, acc.verdict,
